@@ -611,6 +611,53 @@ def float_clause(ctx, rnd):
     return dict(float_instances=len(alive), float_cells=ncell, float_obligations=nob, float_discharged=ndis, float_not_compiling=len(dropped))
 
 
+def constexpr_clause(ctx, insts, rnd, hdrs):
+    """The cell analysis reads the conversion as it is COMPILED: a branch on
+    __builtin_is_constant_evaluated() / std::is_constant_evaluated() is folded away before the IR
+    exists, so inside a constant expression the library could compute something else.  For a
+    sample of the analysed instances, the same conversions are therefore put into constant
+    expressions (both compilers) with operands whose exact image is an integer in range - a
+    positive, a negative (signed reps) and the largest admissible one - and must yield exactly
+    x * N / D, through coerce_in and through coerce_as, and the three checkers must clear them."""
+    items = []
+    pool = [i for i in insts if i.units is None and i.conv_compiles()]
+    rnd2 = random.Random(rnd.random())
+    picked = rnd2.sample(pool, min(len(pool), 160 if ctx.thorough else 48))
+    # rational factors first: they have the widest arithmetic
+    picked.sort(key=lambda i: (i.N == 1 or i.D == 1, i.key))
+    for i in picked:
+        T = i.T
+        lo, hi = model.int_range(T)
+        P = promoted(T)
+        plo, phi = model.int_range(P)
+        kmax = min(hi // i.D if i.D else hi, phi // (i.N * i.D) if i.N * i.D <= phi else 0, hi // i.N)
+        if kmax < 1:
+            continue
+        ks = sorted({1, kmax, max(1, kmax // 3)})
+        xs = [k * i.D for k in ks]
+        if lo < 0:
+            xs += [-k * i.D for k in ks]
+        lines = ["struct B : au::UnitImpl<au::Length> {};", "struct A : decltype(B{} * %s / %s) {};" % (mag_expr(i.N), mag_expr(i.D)), "using T = %s;" % T]
+        for x in xs:
+            want = x * i.N // i.D
+            if not (lo <= want <= hi) or not (lo <= x <= hi):
+                continue
+            lit = lambda v: "static_cast<T>(%dLL)" % v if abs(v) < (1 << 63) else "static_cast<T>(%dULL)" % v
+            lines.append("static_assert(au::make_quantity<A>(%s).coerce_in(B{}) == %s, \"constant expression: %d x %d/%d is %d\");" % (lit(x), lit(want), x, i.N, i.D, want))
+            lines.append("static_assert(au::make_quantity<A>(%s).coerce_as(B{}).in(B{}) == %s, \"constant expression, coerce_as\");" % (lit(x), lit(want)))
+            lines.append("static_assert(!au::is_conversion_lossy(au::make_quantity<A>(%s), B{}) && !au::will_conversion_overflow(au::make_quantity<A>(%s), B{}) && !au::will_conversion_truncate(au::make_quantity<A>(%s), B{}), \"cleared in a constant expression\");" % (lit(x), lit(x), lit(x)))
+        if len(lines) > 3:
+            items.append(witness.Item("cx:%s" % i.key, "\n".join(lines), "accept", None,
+                                      dict(desc="conversion %s inside constant expressions: exact images of %s" % (i.key, xs))))
+    ctx.require(len(items) >= 20, "only %d constant-expression witnesses" % len(items))
+    from vlib import cxx
+    configs = cxx.configs_for(ctx.tier)
+    results, stats = witness.judge(ctx, items, configs, prelude=witness.DEFAULT_PRELUDE + hdrs, batch=24, tag="cvcx")
+    nbad = witness.report_mismatches(ctx, items, results, prelude=witness.DEFAULT_PRELUDE + hdrs)
+    ctx.log("constant-expression witnesses: %d items, %d mismatching" % (len(items), nbad))
+    return dict(constexpr_witnesses=len(items), constexpr_mismatches=nbad)
+
+
 def run(ctx, prop):
     rnd = random.Random(ctx.seed)
     units = atoms.discover_units(ctx)
@@ -714,6 +761,8 @@ def run(ctx, prop):
         ir_functions_analysed=stats["functions"],
         findings_for_other_property=len(other),
     ))
+    if prop == "C03":
+        ctx.coverage.update(constexpr_clause(ctx, insts, rnd, hdrs))
     if prop == "C04":
         fst = float_clause(ctx, rnd)
         ctx.coverage.update(fst)
